@@ -1,15 +1,39 @@
 /-
   Relic.Model.PEChecksum — executable model of `peChecksum` in /repo/lib/authenticode/checksum.go
-  (`NewPEChecksum`, `Write`, `Sum`).  16-bit folding and the `uint32` size are explicit `%`.
+  (`NewPEChecksum`, `Write`, `Sum`, `FixPEChecksum`).  16-bit folding and the `uint32` size are
+  explicit `%`.
 
-  `cksumPos : Option Nat` — `none` is Go's `-1` ("no checksum field / already passed").
+  The model follows the code *after* fix F20 (absolute position counter `pos`; the checksum field is
+  located by `cksumPos - pos`, so it is skipped however the data is split).  The code as it was
+  before the fix is kept as `StOrig` / `writeOrig` / `writesOrig`, with the witness that refutes
+  split-independence for it (Props/C09: `checksum_even_splits_orig_false`).
+
+  `cksumPos : Option Nat` — `none` is Go's `-1` ("no checksum field").
 -/
 import Relic.Base.Bytes
 namespace Relic.PEChecksum
 open Relic
 
+/-- `sum += val; sum = 0xffff & (sum + (sum >> 16))` in `uint32` -/
+def fold1 (sum val : Nat) : Nat :=
+  let t := (sum + val) % 4294967296
+  ((t + t / 65536) % 4294967296) % 65536
+
+/-- the word loop `for i := 0; i < n; i += 2` over the (padded) data.  `ck` is the position of the
+    checksum field and `i` the position of the first byte of `d`, both in the same frame
+    (fixed code: absolute file offsets, i.e. Go's `i == ckpos || i == ckpos+2` with
+    `ckpos = cksumPos - pos` and `i` shifted by `pos`; original code: relative to the write). -/
+def loop (ck : Option Nat) (i : Nat) (sum : Nat) : Bytes → Nat
+  | a :: b :: rest =>
+    let val := if ck = some i ∨ ck.map (· + 2) = some i then 0 else b.toNat * 256 + a.toNat
+    loop ck (i + 2) (fold1 sum val) rest
+  | _ => sum
+
+/-! ### the code after fix F20 -/
+
 structure St where
   cksumPos : Option Nat
+  pos : Nat
   sum : Nat
   size : Nat
   odd : Bool
@@ -17,20 +41,7 @@ structure St where
 
 /-- `NewPEChecksum(peStart)` (`peStart` is an `int`; `≤ 0` means "no field") -/
 def new (peStart : Int) : St :=
-  ⟨if peStart ≤ 0 then none else some (peStart.toNat + 88), 0, 0, false⟩
-
-/-- `sum += val; sum = 0xffff & (sum + (sum >> 16))` in `uint32` -/
-def fold1 (sum val : Nat) : Nat :=
-  let t := (sum + val) % 4294967296
-  ((t + t / 65536) % 4294967296) % 65536
-
-/-- the word loop `for i := 0; i < n; i += 2` over the (padded) data; `ck` is the local `ckpos`
-    (`none` = `-1`), `i` the index of the first byte of `d` -/
-def loop (ck : Option Nat) (i : Nat) (sum : Nat) : Bytes → Nat
-  | a :: b :: rest =>
-    let val := if ck = some i ∨ ck.map (· + 2) = some i then 0 else b.toNat * 256 + a.toNat
-    loop ck (i + 2) (fold1 sum val) rest
-  | _ => sum
+  ⟨if peStart ≤ 0 then none else some (peStart.toNat + 88), 0, 0, 0, false⟩
 
 /-- `Write`: `.err` is Go's `return 0, errors.New("odd write")` (state unchanged) -/
 def write (s : St) (d : Bytes) : Res St :=
@@ -38,11 +49,7 @@ def write (s : St) (d : Bytes) : Res St :=
   else
     let n := d.length
     let d' := if n % 2 ≠ 0 then d ++ [0] else d
-    let ck : Option Nat × Option Nat :=     -- (local ckpos, new h.cksumPos)
-      match s.cksumPos with
-      | some p => if p > n then (none, some (p - n)) else (some p, none)
-      | none => (none, none)
-    .ok ⟨ck.2, loop ck.1 0 s.sum d', (s.size + n) % 4294967296, decide (n % 2 ≠ 0)⟩
+    .ok ⟨s.cksumPos, s.pos + n, loop s.cksumPos s.pos s.sum d', (s.size + n) % 4294967296, decide (n % 2 ≠ 0)⟩
 
 def writes (s : St) : List Bytes → Res St
   | [] => .ok s
@@ -58,5 +65,56 @@ def sumVal (s : St) : Nat :=
   (((s.sum + s.sum / 65536) % 4294967296) % 65536 + s.size) % 4294967296
 
 def sum (s : St) : Bytes := leBytes 4 (sumVal s)
+
+/-- `FixPEChecksum` on a file given as bytes: `readDosHeader` (64 bytes, "MZ", `e_lfanew` at 0x3c),
+    `io.Copy` of the whole file into the hasher (any split into even-sized reads), and the four bytes
+    it writes at `e_lfanew + 88`. -/
+def fixPE (file : Bytes) : Res (Nat × Nat) :=
+  if file.length < 64 then .err "short"
+  else if file.take 2 ≠ [0x4d, 0x5a] then .err "not-pe"
+  else
+    let peStart := leVal ((file.drop 0x3c).take 4)
+    match write (new peStart) file with
+    | .ok s => .ok (peStart + 88, sumVal s)
+    | .err e => .err e
+    | .panic p => .panic p
+    | .diverge => .diverge
+
+/-! ### the code before fix F20 (kept for the refutation witness) -/
+
+structure StOrig where
+  cksumPos : Option Nat
+  sum : Nat
+  size : Nat
+  odd : Bool
+  deriving Repr, DecidableEq
+
+def newOrig (peStart : Int) : StOrig :=
+  ⟨if peStart ≤ 0 then none else some (peStart.toNat + 88), 0, 0, false⟩
+
+/-- original `Write`: `cksumPos` is decremented per write and consumed by the first write that
+    reaches it, even when that write ends on the field or in its middle -/
+def writeOrig (s : StOrig) (d : Bytes) : Res StOrig :=
+  if s.odd then .err "odd-write"
+  else
+    let n := d.length
+    let d' := if n % 2 ≠ 0 then d ++ [0] else d
+    let ck : Option Nat × Option Nat :=     -- (local ckpos, new h.cksumPos)
+      match s.cksumPos with
+      | some p => if p > n then (none, some (p - n)) else (some p, none)
+      | none => (none, none)
+    .ok ⟨ck.2, loop ck.1 0 s.sum d', (s.size + n) % 4294967296, decide (n % 2 ≠ 0)⟩
+
+def writesOrig (s : StOrig) : List Bytes → Res StOrig
+  | [] => .ok s
+  | d :: ds =>
+    match writeOrig s d with
+    | .ok s' => writesOrig s' ds
+    | .err e => .err e
+    | .panic p => .panic p
+    | .diverge => .diverge
+
+def sumValOrig (s : StOrig) : Nat :=
+  (((s.sum + s.sum / 65536) % 4294967296) % 65536 + s.size) % 4294967296
 
 end Relic.PEChecksum
